@@ -232,15 +232,23 @@ class Container:
         raise NotImplementedError
 
     def _checkForCrossReferences(self, memo=None):
-        if not self._checkedForCrossReferences:
-            if memo is None:
-                memo = set()
-            if any(x is self for x in memo):
-                raise ContainerException(f"cannot fill a tree that contains the same aggregator twice: {self}")
-            memo.add(self)
-            for child in self.children:
+        if memo is None:
+            # entry point (a fill): a tree that has been verified once is not walked again
+            if self._checkedForCrossReferences:
+                return
+            memo = {}
+        # during a walk every node is looked up by identity, whatever its own flag says: a node that
+        # occurs twice was marked as checked on its first visit
+        if id(self) in memo:
+            raise ContainerException(f"cannot fill a tree that contains the same aggregator twice: {self}")
+        memo[id(self)] = self
+        # the "value" template of sparsely filled containers is only ever copied, never filled,
+        # so it may be shared between containers
+        template = self.__dict__.get("value")
+        for child in self.children:
+            if child is not None and child is not template:
                 child._checkForCrossReferences(memo)
-            self._checkedForCrossReferences = True
+        self._checkedForCrossReferences = True
 
     def toJsonFile(self, fileName):
         path = Path(fileName)
